@@ -135,7 +135,12 @@ pub struct ParseContext {
     pub macros: Rc<Macro>,
     // messages
     pub messages: Rc<RefCell<Vec<String>>>,
+    // number of .include directives which lead to current file
+    pub include_depth: usize,
 }
+
+/// Limit of nested includes (file which includes itself must not recurse forever)
+pub const MAX_NESTED_INCLUDES: usize = 64;
 
 impl ParseContext {
     pub fn new(
@@ -155,6 +160,7 @@ impl ParseContext {
                 macroses: RefCell::new(hashmap! {}),
             }),
             messages: Rc::new(RefCell::new(vec![])),
+            include_depth: 0,
         }
     }
 
@@ -227,8 +233,16 @@ pub fn parse_file_internal(context: &ParseContext) -> Result<(), Error> {
         segments,
         macros,
         messages,
+        include_depth,
     } = context.clone();
     let include_paths = include_paths.borrow_mut();
+
+    if include_depth > MAX_NESTED_INCLUDES {
+        bail!(
+            "Includes are nested too deeply on file {}",
+            current_path.to_string_lossy()
+        );
+    }
 
     let current_path = if !current_path.as_path().exists() {
         let mut new_path = PathBuf::new();
@@ -278,6 +292,7 @@ pub fn parse_file_internal(context: &ParseContext) -> Result<(), Error> {
         segments,
         macros,
         messages,
+        include_depth,
     };
 
     parse(source.as_str(), &context)?;
